@@ -112,6 +112,7 @@ RULES = {
     'R10': 'for [&]v in Q.iter() { B }  ->  for r10_i in 0..Q.len() { let v = [&]Q[r10_i]; B }',
     'R11': 'for x in (A..B).rev() { S }  ->  for r11_k in A..B { let x = B - 1 - (r11_k - A); S }',
     'R12': 'a private helper method without a contract and without `return` is inlined at its call sites: f(a, b) -> { let r12_0 = (a); let r12_1 = (b); let p = r12_0; let q = r12_1; BODY } (modular verification cannot see through an uncontracted call)',
+    'R13': 'guard-style early returns `if c { return e; }` of an inlined helper become `if c { e } else { rest }`',
     'F1': 'a private struct field was renamed (same field types in the same order): the contract text follows the rename',
     'R6': 'Vec::last().copied() -> same call on a shim helper vec_last(&v) (contract: last element or None)',
 }
@@ -493,6 +494,36 @@ def split_args(a):
     if cur.strip(): out.append(cur.strip())
     return out
 
+def unreturn(body):
+    """R13: a guard `if COND { return E; }` at the top statement level of a helper body becomes `if COND { E } else { REST }`;
+    a final `return E;` becomes `E`.  Returns None when a `return` remains that is not of these two shapes."""
+    depth = 0; i = 0; n = len(body)
+    while i < n:
+        c = body[i]
+        if c in '{([': depth += 1
+        elif c in '})]': depth -= 1
+        elif depth == 0 and body.startswith('if', i) and (i == 0 or not (body[i - 1].isalnum() or body[i - 1] == '_')) and not (body[i + 2:i + 3].isalnum() or body[i + 2:i + 3] == '_') \
+                and re.search(r'(^|[;}])\s*$', body[:i]):
+            j = i + 2; d = 0
+            while j < n and not (body[j] == '{' and d == 0):
+                if body[j] in '([': d += 1
+                elif body[j] in ')]': d -= 1
+                j += 1
+            if j >= n: return None
+            cl = match_close(body, j, '{', '}')
+            blk = body[j + 1:cl].strip()
+            m = re.match(r'^return\s+([^;]*);$', blk, re.S)
+            rest = body[cl + 1:]
+            if m and not re.match(r'\s*else\b', rest):
+                r2 = unreturn(rest)
+                if r2 is None: return None
+                return body[:i] + 'if' + body[i + 2:j] + '{ ' + m.group(1) + ' } else {' + r2 + '}'
+            i = cl + 1; continue
+        i += 1
+    m = re.search(r'(^|[;}])(\s*)return\s+([^;]*);\s*$', body, re.S)
+    if m and not re.search(r'\breturn\b', body[:m.start(2)]): return body[:m.start(2)] + m.group(2) + m.group(3) + '\n'
+    return None if re.search(r'\breturn\b', body) else body
+
 def collect_helpers(items, vc):
     """R12: private helper methods without a contract of their own and without `return`: (params, body) by name"""
     helpers = {}
@@ -506,17 +537,21 @@ def collect_helpers(items, vc):
             m = re.search(r'^(?:#\[[^\]]*\]\s*)*(pub\s+)?fn\s+(\w+)\s*(?:<[^>]*>)?\s*\(([^)]*)\)', fh.strip(), re.S)
             if not m or m.group(1): continue                        # public functions keep their own contract
             name = m.group(2)
-            if ('fn ' + name) in vc.sec or re.search(r'\breturn\b', fb): continue
+            if ('fn ' + name) in vc.sec: continue
+            r13 = False
+            if re.search(r'\breturn\b', fb):
+                fb = unreturn(fb); r13 = True
+                if fb is None: continue
             params = [x.strip() for x in split_args(m.group(3))]
             has_self = bool(params) and re.match(r'&?\s*(mut\s+)?self$', params[0])
             pnames = [re.match(r'(?:mut\s+)?(\w+)\s*:', x).group(1) for x in params[1 if has_self else 0:]]
-            helpers[name] = (has_self, pnames, fb)
+            helpers[name] = (has_self, pnames, fb, r13)
     return helpers
 
 def inline_helpers(body, helpers, applied):
     for _ in range(4):
         changed = False
-        for name, (has_self, pnames, hb) in helpers.items():
+        for name, (has_self, pnames, hb, r13) in helpers.items():
             pat = re.compile((r'\bself\s*\.\s*' if has_self else r'\b(?:Self::)?') + name + r'\s*\(')
             m = pat.search(body)
             if not m: continue
@@ -527,6 +562,7 @@ def inline_helpers(body, helpers, applied):
             binds = ''.join('let r12_%d = (%s); ' % (i, a) for i, a in enumerate(args)) + ''.join('let %s = r12_%d; ' % (p, i) for i, p in enumerate(pnames))
             body = body[:m.start()] + '{ ' + binds + hb.strip('\n') + ' }' + body[cl + 1:]
             applied.add('R12'); changed = True
+            if r13: applied.add('R13')
         if not changed: break
     return body
 
